@@ -335,7 +335,8 @@ impl ReadBackend for OpenDALBackend {
                 if !metadata.is_file() {
                     return None;
                 }
-                Id::parse_some(entry.name(), tpe)
+                // only files at the path this backend uses for the id are repository files
+                Id::parse_some(entry.name(), tpe).filter(|id| entry.path() == self.path(tpe, id))
             })
             .collect())
     }
@@ -392,7 +393,9 @@ impl ReadBackend for OpenDALBackend {
                     return None;
                 }
                 let name = entry.name();
-                let id = Id::parse_some(name, tpe)?;
+                // only files at the path this backend uses for the id are repository files
+                let id = Id::parse_some(name, tpe)
+                    .filter(|id| entry.path() == self.path(tpe, id))?;
                 let length = length(metadata, name, tpe)?;
                 Some((id, length))
             })
